@@ -70,7 +70,7 @@ PROPS = {
     "C12": {
         "lean": ["OxiModel.Props.C12"],
         "needs_binary": True,
-        "streams": [{"name": "corr-io", "quick": 42, "thorough": 42}],
+        "streams": [{"name": "corr-io", "quick": 56, "thorough": 56}],
         "oracles": [],
         "claim": "Lean 4 theorems about the I/O automaton (which system calls touch input, destination and standard output, in which order, and what a failure of each leads to) for EVERY routing, input kind, "
                  "--preserve setting, fault position k and fault kind: no mutating call belongs to the phase before the complete output exists (only the --dir mkdir); a kill or fatal error at any call of that "
